@@ -16,6 +16,8 @@ Round 4: the caller's constants are merged into _simplify's namespace after the
 import preamble; linear_symbolic prints its numbers verbatim; _prepare_sympy
 keeps every well-formed equation; markers are restored in descending index order
 (repair 0ff0759).
+Round 5 (hunt): replace_variables substitutes whole identifiers only, judged on
+the parsed regular expression (repair a6b299c).
 NOT decided: everything that depends on sympy and on the sufficiency of random
 test points - the core of the property.
 """
@@ -384,3 +386,94 @@ def markers_are_restored_longest_first(ctx):
         ctx.check(descending, '%s#order' % fi.qualname.replace('.restore', '') + '.restore', 'markers restored in descending index order',
                   '%s restores the markers in the order %s: when _1 comes before _10 the text of _10 has already been rewritten (11 or more named variables give a wrong solved form)'
                   % (fi.qualname, shown[:70]), fi, lp)
+
+
+def _fold_pattern(e, names):
+    """the text of a pattern expression: string constants joined with +, %-formatting / re.escape(<name>) replaced by the
+    placeholder VAR; None when the expression has any other shape"""
+    if isinstance(e, ast.Constant) and isinstance(e.value, str):
+        return e.value
+    if isinstance(e, ast.Name) and e.id in names:
+        return _fold_pattern(names[e.id], {k: v for k, v in names.items() if k != e.id})
+    if isinstance(e, ast.BinOp) and isinstance(e.op, ast.Add):
+        a, b = _fold_pattern(e.left, names), _fold_pattern(e.right, names)
+        return None if a is None or b is None else a + b
+    if isinstance(e, ast.BinOp) and isinstance(e.op, ast.Mod):
+        a = _fold_pattern(e.left, names)
+        return None if a is None or a.count('%s') != 1 else a.replace('%s', 'VAR')
+    if isinstance(e, ast.Call) and isinstance(e.func, ast.Attribute) and e.func.attr == 'escape':
+        return 'VAR'
+    if isinstance(e, ast.Call) and isinstance(e.func, ast.Attribute) and e.func.attr == 'format' and len(e.args) == 1:
+        a = _fold_pattern(e.func.value, names)
+        return None if a is None or a.count('{}') != 1 else a.replace('{}', 'VAR')
+    return None
+
+
+def _whole_name_pattern(text):
+    """does the regular expression (placeholder VAR for the escaped name) refuse a match that continues an identifier or a number
+    on either side?  decided on the parsed pattern: a negative look-behind (or \\b) covering letters, digits and _ before VAR, a
+    negative look-ahead (or \\b) after it"""
+    import re._parser as sp, re._constants as sc
+    try:
+        parsed = list(sp.parse(text))
+    except Exception:
+        return None
+    lits = [i for i, (op, av) in enumerate(parsed) if op is sc.LITERAL]
+    if len(lits) < 3:
+        return None
+    first, last = lits[0], lits[-1]
+
+    def guards(items, direction):
+        for op, av in items:
+            if op is sc.AT and av in (sc.AT_BOUNDARY,):
+                return True
+            if op is sc.ASSERT_NOT and av[0] == direction:
+                sub = list(av[1])
+                if len(sub) == 1 and sub[0][0] is sc.IN:
+                    import re
+                    cls = re.compile(text[:0] + '[' + ''.join(_cls_text(x) for x in sub[0][1]) + ']')
+                    if all(cls.match(ch) for ch in 'azAZ09_'):
+                        return True
+        return False
+
+    def _cls_text(x):
+        op, av = x
+        if op is sc.RANGE:
+            return '%s-%s' % (chr(av[0]), chr(av[1]))
+        if op is sc.LITERAL:
+            return '\\' + chr(av)
+        if op is sc.CATEGORY:
+            return {sc.CATEGORY_WORD: '\\w', sc.CATEGORY_DIGIT: '\\d'}.get(av, '')
+        return ''
+    return guards(parsed[:first], -1) and guards(parsed[last + 1:], 1)
+
+
+@rule('C12.k', min_instances=1)
+def variables_are_replaced_as_whole_names(ctx):
+    """simplify / solve rename the caller's variables textually (replace_variables) before anything is parsed, for ANY variable naming: a name must only be replaced where it stands as a whole identifier - a plain str.replace also rewrites the `e` of the coefficient 1e+20 when a variable is called e (1e+20 became 1_4+20, read as 14+20) and the x of max(...). The substitution loop of replace_variables uses a regular expression that refuses a letter, digit or underscore on either side of the name (decided on the parsed pattern)"""
+    f = ctx.func('mystic.symbolic:replace_variables')
+    loops = [n for n in walk_no_nested(f.node) if isinstance(n, ast.For) and calls_where(n, lambda c: isinstance(c.func, ast.Attribute) and c.func.attr in ('replace', 'sub'), include_lambda=False)
+             and 'variables' in ' '.join(unparse(s) for s in n.body)]
+    ctx.need(loops, 'replace_variables: the substitution loop over the variable names is not found')
+    lp = [l for l in loops if 'markers[' not in ' '.join(unparse(s) for s in l.body)] or loops
+    lp = lp[-1]
+    names = {}
+    for st in ctx.model.modules['mystic.symbolic'].tree.body:
+        if isinstance(st, ast.Assign) and len(st.targets) == 1 and isinstance(st.targets[0], ast.Name) and isinstance(st.value, ast.Constant) and isinstance(st.value.value, str):
+            names[st.targets[0].id] = st.value
+    for st in lp.body:
+        if isinstance(st, ast.Assign) and len(st.targets) == 1 and isinstance(st.targets[0], ast.Name):
+            names[st.targets[0].id] = st.value
+    plain = calls_where(lp, lambda c: isinstance(c.func, ast.Attribute) and c.func.attr == 'replace' and c.args and 'variables[' in unparse(c.args[0]), include_lambda=False)
+    subs = calls_where(lp, lambda c: isinstance(c.func, ast.Attribute) and c.func.attr == 'sub' and len(c.args) >= 2, include_lambda=False)
+    if plain:
+        ctx.bad('replace_variables#whole-names', 'replace_variables substitutes each variable name with str.replace, i.e. wherever the characters occur: a variable called e is also replaced inside the coefficient 1e+20 '
+                '(-> 1_4+20 = 34) and x inside max(...), so simplify / solve return a different system for some variable namings', f, enclosing_stmt(plain[0]))
+        return
+    ctx.need(subs, 'replace_variables: neither str.replace nor re.sub in the substitution loop')
+    text = _fold_pattern(subs[0].args[0], names)
+    ctx.need(text is not None, 'replace_variables: cannot fold the pattern %s to text' % unparse(subs[0].args[0])[:80])
+    ok_ = _whole_name_pattern(text)
+    ctx.need(ok_ is not None, 'replace_variables: pattern %r cannot be parsed' % text)
+    ctx.check(ok_, 'replace_variables#whole-names', 'names are matched as whole identifiers (pattern %s)' % text,
+              'replace_variables matches the variable names with the pattern %r, which accepts a match inside a longer identifier or a number (1e+20 with a variable called e)' % text, f, enclosing_stmt(subs[0]))
